@@ -879,9 +879,20 @@ func (m *Mint) MeltTokens(ctx context.Context, meltTokensRequest nut05.PostMeltB
 		}
 
 		m.logInfof("verified proofs in melt tokens request. Setting proofs as pending before attempting payment.")
+		// mark the quote as pending first: a PENDING quote without a payment is
+		// resolved by the next state check, whereas pending proofs under an UNPAID
+		// quote (if the mint stops between the two writes) would be locked forever
+		err = m.db.UpdateMeltQuote(meltQuote.Id, "", nut05.Pending)
+		if err != nil {
+			errmsg := fmt.Sprintf("error updating melt quote state: %v", err)
+			return cashu.BuildCashuError(errmsg, cashu.DBErrCode)
+		}
 		// set proofs as pending before trying to make payment
 		err = m.db.AddPendingProofs(proofs, meltQuote.Id)
 		if err != nil {
+			if err := m.db.UpdateMeltQuote(meltQuote.Id, "", nut05.Unpaid); err != nil {
+				m.logErrorf("could not set melt quote '%v' back to unpaid: %v", meltQuote.Id, err)
+			}
 			errmsg := fmt.Sprintf("error setting proofs as pending in db: %v", err)
 			return cashu.BuildCashuError(errmsg, cashu.DBErrCode)
 		}
@@ -891,11 +902,6 @@ func (m *Mint) MeltTokens(ctx context.Context, meltTokensRequest nut05.PostMeltB
 		return storage.MeltQuote{}, err
 	}
 	meltQuote.State = nut05.Pending
-	err = m.db.UpdateMeltQuote(meltQuote.Id, "", nut05.Pending)
-	if err != nil {
-		errmsg := fmt.Sprintf("error updating melt quote state: %v", err)
-		return storage.MeltQuote{}, cashu.BuildCashuError(errmsg, cashu.DBErrCode)
-	}
 
 	// before asking backend to send payment, check if quotes can be settled
 	// internally (i.e mint and melt quotes exist with the same invoice)
